@@ -32,6 +32,25 @@ def run_case(seed, case, n_ops, profile_name):
             w.sim = keep
             if again != saved[-1][1]:
                 viol.append(('replay_of_saved_state_differs', {'op_index': k, 'op': gen.op_json(w, op)['op']}))
+    # stepping a saved state again LATER (after everything else has happened) still gives the state recorded at the time: the
+    # result of a step may depend on nothing but the saved state and the operation (in particular not on model data shared
+    # through the environment that an intervening step rewrote)
+    late = [k for k, op in enumerate(ops) if op[0] in ('update', 'apply')]
+    rng3 = random.Random(f'late-replay|{seed}|{case}|{profile_name}')
+    rng3.shuffle(late)
+    keep = w.sim
+    for k in sorted(late[:8]):
+        w.sim = saved[k][0]
+        try:
+            hw.run_op(w, ops[k])
+        except hw.CaseError:
+            continue
+        finally:
+            w.reporter.take()
+        if fp(w.sim) != saved[k + 1][1]:
+            viol.append(('late_replay_of_saved_state_differs', {'op_index': k, 'op': gen.op_json(w, ops[k])['op'], 'ops_in_between': len(ops) - 1 - k}))
+            break
+    w.sim = keep
     for j, (s, f0) in enumerate(saved):
         if fp(s) != f0:
             viol.append(('earlier_state_modified', {'state_index': j, 'ops_after_it': len(saved) - 1 - j}))
@@ -80,7 +99,7 @@ def engine(res, spec, tier, seed, extended=False):
         n = 200
     states = 0
     seen = set()
-    for profile in ('generic', 'contention', 'rawmix'):
+    for profile in ('generic', 'contention', 'rawmix', 'twoplugs'):
         for c in range(n // 3):
             try:
                 viol, k = run_case(seed, c, 30, profile)
